@@ -442,6 +442,30 @@ def domain_check(ctx, sf, ext, machine, key, dom):
     else:
         ctx.ok({'format': ext, 'machine': machine, 'key': key, 'values': n})
 
+def issue2_check(ctx, sf, ext):
+    """issue2= has no attribute on the reader side, so the written bytes are read directly: Z80 header byte 29 bit 2, SZX KEYB block flags
+    bit 0 (both from the format specifications); the name is matched whatever its case."""
+    ram = _zero_ram('48K')
+    for spec in ('issue2=1', 'ISSUE2=1', 'Issue2=0'):
+        want = int(spec[-1])
+        try:
+            data = bytes(sf.write(ext, ram, [], [spec], '48K'))
+        except NotLiteral as e:
+            ctx.limit('%s issue2' % ext, 'not foldable: %s' % e)
+            return
+        except (KeyError, IndexError, ValueError, TypeError, AttributeError) as e:
+            ctx.violation('%s 48K issue2' % ext, WHERE, '%s 48K: %s fails with %s: %s' % (ext, spec, type(e).__name__, e))
+            return
+        if ext == 'z80':
+            got = (data[29] >> 2) & 1
+        else:
+            i = data.find(b'KEYB')
+            got = data[i + 8] & 1 if i >= 0 else 0
+        if got != want:
+            ctx.violation('%s 48K issue2' % ext, WHERE, '%s 48K: %s is stored as %d (%s)' % (ext, spec, got, 'header byte 29 bit 2' if ext == 'z80' else 'KEYB block flags bit 0' + ('' if data.find(b'KEYB') >= 0 else ': no KEYB block written')))
+            return
+    ctx.ok({'format': ext, 'machine': '48K', 'key': 'issue2', 'values': 3})
+
 def codecs_rule(ctx, repo, sf):
     ctx.rule('C09.11-codecs', 'every value of the small state domains (border, im, iff, R, 8-bit registers and register halves, AY registers, 0x7FFD, 0xFFFD, 0xFE) through the folded writer -> reader and the reference decoder; both formats, all machines', floor=150)
     rnd = random.Random(7 + ctx.seed)
@@ -459,6 +483,8 @@ def codecs_rule(ctx, repo, sf):
                 domains += [('fe', st(256, 17))]
             for key, dom in domains:
                 domain_check(ctx, sf, ext, machine, key, dom)
+            if machine == '48K':
+                issue2_check(ctx, sf, ext)
 
 FORCED = {'move': ('3:50000,100,0:40000', '0:49152,50,7:16384', '5:65000,200,0:65300', '0:$C000,16,0:$C100'),
           'poke': ('0:49152-49160,^85', '7:$FFFF,+1', '0:16384,255')}
